@@ -20,8 +20,13 @@ package jerr
 //@   attr pure deterministic
 //@   requires[C01,C07] index <= len(b.data)
 //@   ensures result <= len(b.data) && result == endOfLine(b.data.arr, b.data.off, len(b.data), index)
+// lineOf/colOf/quoteOf: what the dependency computes for (content, index); abstract, so that every Line/Column/Quote
+// stored in an error can be traced to the file and index it was computed from.
+//@ opaque fn lineOf(arr int, off int, n int, i int) int
+//@ opaque fn colOf(arr int, off int, n int, i int) int
 //@ extern (github.com/jsightapi/jsight-schema-core/bytes.Bytes).LineAndColumn(b, index)
 //@   attr pure deterministic nopanic
+//@   ensures result0 == lineOf(b.data.arr, b.data.off, len(b.data), index) && result1 == colOf(b.data.arr, b.data.off, len(b.data), index)
 //@   ensures imp(len(b.data) == 0 || len(b.data) <= index, result0 == 0 && result1 == 0)
 //@   ensures imp(len(b.data) > 0 && index < len(b.data), result0 >= 1 && result1 >= 1)
 //@ extern (github.com/jsightapi/jsight-schema-core/bytes.Bytes).TrimSpacesFromLeft(b)
@@ -39,6 +44,8 @@ package jerr
 //@   requires[C01,C07] f != nil
 //@   ensures result.File == f && result.Index == i
 //@   ensures imp(i < len(f.content.data), result.Line >= 1 && result.Column >= 1)
+//@   ensures[C07,@line-of-index] result.Line == lineOf(f.content.data.arr, f.content.data.off, len(f.content.data), i)
+//@       && result.Column == colOf(f.content.data.arr, f.content.data.off, len(f.content.data), i)
 
 // "an index inside that file": the C07 clause is i < len; i == len does not panic (C01) but is not inside the file.
 //@ func NewJApiError(msg, f, i)
@@ -49,6 +56,8 @@ package jerr
 //@   ensures result.Msg == msg && result.File == f && result.Index == i
 //@   ensures len(result.includeTrace) == 0 && result.wrapped == nil
 //@   ensures imp(i < len(f.content.data), result.Line >= 1 && result.Column >= 1)
+//@   ensures[C07,@line-of-index] result.Line == lineOf(f.content.data.arr, f.content.data.off, len(f.content.data), i)
+//@       && result.Column == colOf(f.content.data.arr, f.content.data.off, len(f.content.data), i)
 
 //@ func (*JApiError).OccurredInFile(e, f, atByte)
 //@   property C07
@@ -57,3 +66,4 @@ package jerr
 //@   ensures len(e.includeTrace) == old(len(e.includeTrace)) + 1
 //@   ensures e.includeTrace.arr == old(e.includeTrace.arr) || fresh(e.includeTrace.arr)
 //@   ensures e.includeTrace[len(e.includeTrace)-1].path == f.name
+//@   ensures[C07,@trace-line] e.includeTrace[len(e.includeTrace)-1].atLine == lineOf(f.content.data.arr, f.content.data.off, len(f.content.data), atByte)
